@@ -22,7 +22,7 @@ W2_PROPS = ["C15", "C16", "C20"]
 CLAIMED = W1_PROPS + W2_PROPS
 LEVEL = {p: "exploration" for p in CLAIMED}
 LEVEL.update(C07="fault_enumeration", C08="fault_enumeration", C16="fault_enumeration")
-RUNS = {"quick": {"W1": 6000, "W2": 24000}, "thorough": {"W1": 120000, "W2": 400000}}
+RUNS = {"quick": {"W1": 5000, "W2": 20000}, "thorough": {"W1": 120000, "W2": 400000}}
 WALL = {"quick": 40.0, "thorough": 330.0}
 BASE_SEED = {"quick": 20261002, "thorough": 777000777}
 FAULT_KEYS = {
@@ -57,13 +57,13 @@ def generate(prop, tier, base, index):
     return seed, cfg, ops
 
 
-def execute(engine, cfg, ops):
+def execute(engine, cfg, ops, focus=None):
     if engine == "W1":
         from .world1 import World
-        w = World(cfg)
+        w = World(cfg, focus)
     else:
         from .world2 import World2
-        w = World2(cfg)
+        w = World2(cfg, focus)
     v = w.run(ops)
     return v, w
 
@@ -124,7 +124,7 @@ def run_chunk(args):
         seed, cfg, ops = generate(prop, tier, base, i)
         engine = engine_of(prop, i)
         try:
-            v, w = execute(engine, cfg, ops)
+            v, w = execute(engine, cfg, ops, prop)
         except HarnessError as e:
             return {"harness_error": f"index {i} seed {seed}: {e!r}\n{traceback.format_exc()}"}
         except Exception as e:
@@ -223,7 +223,7 @@ def replay_fixed(known, prop):
             continue
         with open(path) as f:
             rec = json.load(f)
-        vs, _w = execute(rec["engine"], rec["config"], gen.from_json(rec["ops"]))
+        vs, _w = execute(rec["engine"], rec["config"], gen.from_json(rec["ops"]), prop)
         target = tuple(rec["class"])
         if any(vclass(x) == target for x in vs):
             out.append((path, target))
@@ -238,13 +238,13 @@ def minimise_and_write(prop, tier, item):
     target = vclass(v0)
 
     def ex(c, o):
-        return execute(engine, c, o)[0]
+        return execute(engine, c, o, prop)[0]
     c2, o2, nexec = shrink(ex, cfg, ops, target, step=v0.get("step"))
-    vs, w = execute(engine, c2, o2)
+    vs, w = execute(engine, c2, o2, prop)
     vm = next((x for x in vs if vclass(x) == target), None)
     if vm is None:  # shrinking lost it (should not happen): fall back to the original
         c2, o2 = cfg, ops
-        vs, w = execute(engine, c2, o2)
+        vs, w = execute(engine, c2, o2, prop)
         vm = next((x for x in vs if vclass(x) == target), None)
         if vm is None:
             raise HarnessError(f"violation {target} of seed {item['seed']} does not reproduce in-process")
@@ -279,7 +279,7 @@ def replay(path, quiet=False):
     with open(path) as f:
         rec = json.load(f)
     cfg, ops = rec["config"], gen.from_json(rec["ops"])
-    vs, w = execute(rec["engine"], cfg, ops)
+    vs, w = execute(rec["engine"], cfg, ops, rec.get("property"))
     target = tuple(rec["class"])
     hit = next((x for x in vs if vclass(x) == target), None)
     if not quiet:
@@ -410,6 +410,6 @@ def digests(prop, tier, base, n):
     out = []
     for i in range(n):
         seed, cfg, ops = generate(prop, tier, base, i)
-        v, w = execute(engine_of(prop, i), cfg, ops)
+        v, w = execute(engine_of(prop, i), cfg, ops, prop)
         out.append(w.digest()[:16] + ":" + ",".join(sorted({x["pattern"] for x in v})))
     return out
